@@ -154,15 +154,17 @@ def _p_norm(p: float, critical_pairs: list = []):
                 # horizontal line segment
                 result += (np.abs(y0) ** p) * (x1 - x0)
                 continue
-            # slope is well-defined
-            slope = (y1 - y0) / (x1 - x0)
-            # antiderivative of |f|^p on a piece where f keeps one sign, up to sign
-            ev_x1 = np.abs(y1) ** (p + 1) / (np.abs(slope) * (p + 1))
-            ev_x0 = np.abs(y0) ** (p + 1) / (np.abs(slope) * (p + 1))
-            # segment crosses the x-axis: two one-signed pieces meeting at the root
+            # |f|^p is integrated piece by piece where f keeps one sign; the
+            # formulas divide by differences of the end values, never by the
+            # slope, which cancels catastrophically on nearly flat segments
+            a0, a1 = np.abs(y0), np.abs(y1)
+            dx = x1 - x0
             if (y0 < 0 and y1 > 0) or (y0 > 0 and y1 < 0):
-                result += ev_x1 + ev_x0
-            # segment does not cross the x-axis
+                # segment crosses the x-axis: two one-signed pieces meeting at the root
+                result += dx * (a0 ** (p + 1) + a1 ** (p + 1)) / ((p + 1) * (a0 + a1))
+            elif np.abs(a1 - a0) <= 1e-6 * max(a0, a1):
+                # nearly flat segment
+                result += dx * (0.5 * (a0 + a1)) ** p
             else:
-                result += np.abs(ev_x1 - ev_x0)
+                result += dx * np.abs(a1 ** (p + 1) - a0 ** (p + 1)) / ((p + 1) * np.abs(a1 - a0))
     return (result) ** (1.0 / p)
